@@ -1,5 +1,9 @@
-"""C18 — the indexer's answers equal filtering the chain's live cells and transactions (engine simidx)."""
-import os, time, json, subprocess
+"""C18 — the indexer's answers equal filtering the chain's live cells and transactions (engine simidx).
+
+Two real indexers are driven through the same scenario generator, chain model and oracles:
+ckb-indexer (RocksDB; parts main_domain / known_deviation_domains) and ckb-rich-indexer (SQLite;
+parts rich / rich_known_deviation_domains, violation classes prefixed "rich:")."""
+import os, re, time, json, subprocess
 from vlib import *
 from batchcheck import *
 
@@ -14,7 +18,10 @@ ASSUMPTIONS = [
     "one-sided: for group_by_transaction with prefix search or with a filter (grouping of interleaved rows is documented as unsupported / unspecified) only the flattened (tx, io_type, io_index) sequence and the page-size upper bound are compared; exact group structure and full pages are demanded for exact-script, unfiltered queries only",
     "one-sided: oracle 2 compares, between 'block B was appended and is the tip' and 'the indexer rolled back to B', the answers to a per-scenario fixed query set and the rows of prefixes OutPoint, CellLockScript, CellTypeScript, TxLockScript, TxTypeScript, Header; Header rows of blocks <= tmax - keep_num - 1 may be missing afterwards (prune), nothing else may differ. ConsumedOutPoint and TxHash rows are not compared (rollback leaves ConsumedOutPoint rows behind and prune drops both kinds)",
     "custom block/cell filters (rhai), the tx-pool overlay (Pool::is_consumed_by_pool_tx), init_tip_hash, request_limit and the wall-clock request timeout are not exercised (no filter, no pool, unlimited request size, 24 h timeout)",
-    "the rich-indexer (util/rich-indexer, sqlite) is NOT covered by this check",
+    "rich-indexer parts: the real ckb_rich_indexer AsyncRichIndexer::{append, rollback} (the bodies that IndexerSync::{append, rollback} of RichIndexer run with block_on) and AsyncRichIndexerHandle over SQLite (85 % of the runs SQLite's in-memory database with the one-connection pool SQLXPool::connect builds for it, 15 % a database file on tmpfs with the ten-connection pool), every future run to completion by Runtime::block_on of a current-thread tokio runtime owned by the run; the synchronous wrappers RichIndexer / RichIndexerHandle (block_on forwarding through ckb_async_runtime::Handle), RichIndexerService, PostgreSQL, the tx-pool overlay, custom filters and init_tip are not exercised. The sqlx pool's wall-clock timers (acquire 60 s, idle reaper 30 s, lifetime 1800 s) exist but cannot elapse inside a run of a few hundred milliseconds; no path that completes awaits them. One run per worker-thread-owned child process at a time (SQLite's process-global mutexes serialise threads), results absorbed in seed order",
+    "rich-indexer oracle 1 uses the semantics documented for RPC module Rich_indexer: script_search_mode partial = same code_hash and hash_type, searched args occur inside the args; get_transactions accepts all seven filter conditions, applied to the cell a row is about (block_range: the block of the row's transaction); get_transactions filter.script is documented without 'prefix' or 'exact' and is taken as prefix like get_cells; order = position on the chain (cells: block, tx_index, output index; transactions: block, tx_index). One-sided: the order of the rows of ONE transaction in an ungrouped answer and of the cells inside one group is undocumented and compared as a set; get_cells_capacity answering null instead of capacity 0 when no live cell matches is accepted (the documentation allows null without saying when; probe capacity_null_for_empty_set); paging follows the documented client rule (a page shorter than limit is the last page)",
+    "rich-indexer oracle 2 compares, between 'block B was appended and is the tip' and 'the indexer rolled back to B', the answers to the fixed query set and EVERY row of all nine tables (block, block_association_proposal, block_association_uncle, ckb_transaction, tx_association_header_dep, tx_association_cell_dep, output incl. is_spent, input, script) including the row ids. The rich-indexer never prunes, so every rollback depth is inside its retention; keep_num only bounds the reorg depth the generator asks for (1..12). Blocks of rich scenarios carry 0-2 uncles and 0-2 proposals, transactions 0-2 cell deps and header deps",
+    "rich-indexer: two input domains in which the unmodified code deviates (sim/simidx/RICH_FINDINGS.md) are explored by the separate part rich_known_deviation_domains and avoided by part rich: (1) a non-empty all-0xff byte string searched as a prefix (script args, filter.script args, filter.output_data) while indexed args/data extend it: the generator of part rich gives no script args starting with 0xff and no data extending 'ff'; (2) ungrouped get_transactions paged so that a page lies entirely inside one transaction some of whose rows were on the previous page: part rich detects the condition on the model's expected answer and asks that query with limit 10000 instead (probe txs_cursor_domain_avoided_by_raising_limit). Until a decision (fix or known_findings.json entry) violations of exactly these two class families in that part are printed as PENDING-FINDING and do not fail the check (VERIF_C18_RICH_PENDING_STRICT=1 makes them fail); any other class fails it",
     "three input domains in which the unmodified code deviates are explored by a separate part ('known_deviation_domains') so they cannot mask anything in the main part: searched args that extend an indexed script's args with zero bytes; get_cells_capacity with filter.script_len_range; rolling back block 0",
     "capacities stay below 2^39 per cell so that the u64 sum in get_cells_capacity cannot overflow (the simulator builds the indexer with overflow checks on)",
     "RocksDB (real, default options, in a per-run directory on tmpfs) and molecule/ckb-types are trusted",
@@ -25,12 +32,41 @@ REAL = [
     "ckb_indexer store::RocksdbStore / RocksdbBatch over a real RocksDB on tmpfs",
     "ckb_types block / transaction / script builders and hashing",
 ]
+REAL += [
+    "ckb_rich_indexer AsyncRichIndexer::{new, append, rollback} incl. insert.rs / remove.rs (through the verif-hooks wrapper ckb_rich_indexer::verif::VerifRichIndexer) and SQLXPool::connect (table creation, migrations)",
+    "ckb_rich_indexer AsyncRichIndexerHandle::{get_cells, get_transactions (ungrouped and grouped), get_cells_capacity, get_indexer_tip} incl. prefix/exact/partial search, every filter kind, order, limit and cursor paging",
+    "sqlx 0.8 (Any driver) + bundled SQLite, in memory or in a file on tmpfs; tokio current-thread runtime",
+]
 STUB = [
     "the chain (simulator-built block tree instead of ChainDB / SecondaryDB)",
     "IndexerSyncService (one try_loop_sync iteration per Sync op, re-implemented)",
     "tx-pool overlay and custom filters (absent)",
     "JSON-RPC transport (IndexerHandle is called in-process with constructed IndexerSearchKey values)",
+    "rich-indexer: RichIndexerService / IndexerSyncService / SecondaryDB, the synchronous RichIndexer and RichIndexerHandle wrappers, PostgreSQL",
 ]
+
+# violation classes of the rich-indexer's two deviation domains that await a decision (fix: commit or
+# known_findings.json entry); see sim/simidx/RICH_FINDINGS.md. Only honoured in part rich_known_deviation_domains.
+RICH_PENDING = [
+    r"rich:txs_cursor_repeats_within_tx",
+    r"rich:prefix_all_ff_misses_extensions:(get_cells|get_transactions|get_cells_capacity)",
+]
+RICH_DEV_PART = "rich_known_deviation_domains"
+
+
+def split_pending(doc, pending_counts):
+    """take the awaiting-decision classes out of the sub-part's violations unless known_findings.json already decides them"""
+    if os.environ.get("VERIF_C18_RICH_PENDING_STRICT") == "1":
+        return
+    keep = []
+    for v in doc["violations"]:
+        c = v["violation"]["class"]
+        if match_known(PROP, c) is None and any(re.fullmatch(p, c) for p in RICH_PENDING):
+            e = pending_counts.setdefault(c, {"runs": 0, "first_seed": v["seed"], "detail": v["violation"]["detail"][:600]})
+            e["runs"] += 1
+        else:
+            keep.append(v)
+    doc["violations"] = keep
 
 
 def gen(seed, extra=()):
@@ -45,7 +81,7 @@ def determinism_selfcheck():
     """a few seeded scenarios, each executed twice in separate processes: verdict and event-log hash must agree"""
     n = 0
     for i in range(4):
-        for extra in ((), ("--suspects",)):
+        for extra in ((), ("--suspects",), ("--rich",), ("--rich", "--suspects")):
             sc = gen(seed_lo(9) + i, extra)
             r1 = exec_scenario(BIN, sc)
             r2 = exec_scenario(BIN, sc)
@@ -66,33 +102,56 @@ def run(tier, args):
     parts = [
         ("main_domain", [], 3_500 if q else 130_000, 0),
         ("known_deviation_domains", ["--suspects"], 500 if q else 15_000, 1),
+        ("rich", ["--rich"], 1_300 if q else 45_000, 2),
+        (RICH_DEV_PART, ["--rich", "--suspects"], 300 if q else 6_000, 3),
     ]
     skip_dev = os.environ.get("VERIF_C18_SKIP_KNOWN_DEVIATIONS") == "1"
     if skip_dev:
         # the three deviations of the unmodified indexer (see known_findings.json / the C18 report) are not looked for
-        parts = parts[:1]
+        parts = [p for p in parts if "--suspects" not in p[1]]
+    if os.environ.get("VERIF_C18_ONLY_RICH") == "1":
+        parts = [p for p in parts if "--rich" in p[1]]
     if args.seeds:
         a, b = args.seeds.split("..")
         parts = [(n, x, int(b) - int(a), s) for (n, x, _, s) in parts]
     agg = Agg()
+    pending = {}
+    part_counters = {}
     for name, extra, n, stream in parts:
         lo = seed_lo(stream) if not args.seeds else int(args.seeds.split("..")[0])
         t1 = time.time()
         doc, rc = run_json([BIN, "batch", "--seeds", f"{lo}..{lo+n}", "--threads", "16", *extra], timeout=7200)
         log(f"[{PROP}] {name}: {doc['runs']} runs, {doc['nontrivial_runs']} non-trivial, {len(doc['violations'])} failing, {time.time()-t1:.1f}s")
+        if name == RICH_DEV_PART:
+            split_pending(doc, pending)
+        if "--rich" in extra:
+            part_counters[name] = {
+                "runs": doc["runs"],
+                "nontrivial_runs": doc["nontrivial_runs"],
+                "distinct_operation_sequences": doc["distinct_interleavings"],
+                "distinct_abstract_states": doc["distinct_states"],
+                "steps": doc["steps"],
+                "fault_kinds_fired": doc["faults"],
+                "probes_hit": doc["probes"],
+                "wall_s": round(time.time() - t1, 1),
+            }
         agg.add(name, doc)
     if agg.harness_errors:
         log("harness errors:", agg.harness_errors[:5])
         return 2
+    for c, e in sorted(pending.items()):
+        print(f"PENDING-FINDING: property={PROP} class={c} {e['runs']} run(s) in part {RICH_DEV_PART}, first seed {e['first_seed']}: awaiting decision (fix: commit or known_findings.json entry), analysis and minimal history in sim/simidx/RICH_FINDINGS.md", flush=True)
     unknown = triage(PROP, agg, BIN, shrink_keys=("ops", "probe_queries"), max_report=6)
     wall = time.time() - t0
     coverage = {
         "evaluations": agg.runs,
         "distinct_nontrivial": agg.distinct_nontrivial,
-        "rule": "one evaluation = one simulated history: a seeded operation list (Mine, SwitchBranch, Sync [with bounce = append, rollback, compare, append], Rollback, Query) executed against the real indexer on its own RocksDB and against the simulator's chain model; after every append/rollback the tip (both APIs) and a sweep (every pool script x lock/type x get_cells/get_transactions exact, every (code_hash, hash_type) family by prefix incl. get_cells_capacity) are compared, every Query op is compared, and every arrival at a block by rollback is compared with the snapshot taken when that block was appended. distinct = distinct hash of the executed operation sequence (op kinds, what each Sync did, reorg depths, transactions per mined block); non-trivial = the sync actor rolled back at least one block because the main chain switched branches (depth >= 1), or a manual Rollback was followed by the append of a different block at that height",
+        "rule": "one evaluation = one simulated history: a seeded operation list (Mine, SwitchBranch, Sync [with bounce = append, rollback, compare, append], Rollback, Query) executed against the real indexer on its own store (ckb-indexer on RocksDB in parts main_domain / known_deviation_domains, ckb-rich-indexer on SQLite in parts rich / rich_known_deviation_domains; separate seed streams) and against the simulator's chain model; after every append/rollback the tip (both APIs) and a sweep (every pool script x lock/type x get_cells/get_transactions exact, every (code_hash, hash_type) family by prefix incl. get_cells_capacity) are compared, every Query op is compared, and every arrival at a block by rollback is compared with the snapshot taken when that block was appended. distinct = distinct hash of the executed operation sequence (op kinds, what each Sync did, reorg depths, transactions per mined block); non-trivial = the sync actor rolled back at least one block because the main chain switched branches (depth >= 1), or a manual Rollback was followed by the append of a different block at that height",
         "samples": agg.samples[:3],
         "parts": agg.parts,
         "known_deviation_domains_part_skipped": skip_dev,
+        "rich_parts": part_counters,
+        "rich_pending_findings": pending,
         "exhaustive": False,
         "fault_kinds_fired": agg.faults,
         "probes_hit": agg.probes,
